@@ -3,6 +3,16 @@
 //! SimNet implements the crate's `Downloader`; a single-task executor written here polls the one top-level
 //! future, its poll counter being the only clock. SimNet's behaviour is a pure function of
 //! (`NetPlan`, the sequence of requests made to it).
+//!
+//! Finding F1 (unchanged tree, T0, identity `semantic-mismatch / inherited-dependency.not-managed-by-child`):
+//! the crate fills an inherited dependency from the dependencyManagement of the POM that *declares* it
+//! (`maven_pom_done.rs`: `merge_parent` passes the parent's already-managed `DependencyDone`s on, and
+//! `make_dependencies` chains them unchanged); Maven manages every dependency of the *effective* POM from the
+//! effective management, in which "the current POM's declaration takes precedence over its parent's".
+//! Minimal universe: parent (packaging pom) manages lib:1.0 and depends on lib without a version; child `app`
+//! manages lib:2.0; roots [app] -> Maven: lib:2.0, crate: lib:1.0. Same for scopes (child manages scope
+//! runtime/test for a dependency the parent declares without scope). Inside the quantifier: the child re-declares
+//! no dependency, only a management entry. Replays: /verif/findings-c19-replays/{version,scope}.json.
 
 use crate::engine::*;
 use crate::refmvn::*;
